@@ -1,6 +1,6 @@
 (* C05/Proofs_flags.v — lifecycle: added/started follow the acknowledgements, callbacks fire exactly on
    changes, the variable list is stable under re-adding, a never-accepted configuration sends nothing. *)
-From CF Require Import C05.Model C05.Proofs_add.
+Require Import CF.C05.Model CF.C05.Proofs_add.
 From Coq Require Import ZifyBool.
 Open Scope Z_scope.
 Ltac Zify.zify_post_hook ::= Z.to_euclidean_division_equations.
@@ -111,6 +111,15 @@ Definition expected_cbs (h : nat) (old new : bool * bool) : list obs :=
 Definition create_ack_ok (cmd status : Z) : bool :=
   ((cmd =? g_cmd_create) || (cmd =? g_cmd_create_v2)) && ((status =? 0) || (status =? g_eexist)).
 
+Ltac walk_eq :=
+  repeat (cbv iota; cbn [orb andb negb fst snd];
+          match goal with
+          | |- context [if ?b then _ else _] =>
+              lazymatch b with true => fail | false => fail | _ => destruct b eqn:? end
+          | |- context [match ?x with Some _ => _ | None => _ end] =>
+              lazymatch x with Some _ => fail | None => fail | _ => destruct x eqn:? end
+          end).
+
 Lemma added_after_started s h b : c_added (get (put s h (set_started (get s h) b)) h) = c_added (get s h).
 Proof. rewrite get_put. destruct (Nat.eqb h h && valid_h s h)%bool; reflexivity. Qed.
 
@@ -136,18 +145,12 @@ Proof.
   cbn zeta. unfold on_settings, ack_effect, create_ack_ok, expected_cbs, assign_added, assign_started, flags.
   destruct (find_block s id) as [h0|] eqn:Ef.
   - destruct (c_added (get s h0)) eqn:Ea, (c_started (get s h0)) eqn:Es;
-    destruct (cmd =? g_cmd_create) eqn:C0, (cmd =? g_cmd_create_v2) eqn:C1, (cmd =? g_cmd_start) eqn:C2,
-             (cmd =? g_cmd_stop) eqn:C3, (cmd =? g_cmd_delete) eqn:C4, (cmd =? g_cmd_reset) eqn:C5;
-    try (exfalso; unfold g_cmd_create, g_cmd_create_v2, g_cmd_start, g_cmd_stop, g_cmd_delete, g_cmd_reset in *; lia);
-    destruct (status =? 0) eqn:S0, (status =? g_eexist) eqn:S1, (status =? g_enoent) eqn:S2,
-             (err_known status) eqn:S3, (s_toc s) eqn:T;
-    cbv beta iota zeta; rewrite ?added_after_started, ?Ea, ?Es; cbn; rewrite ?Ea, ?Es; cbn; split; reflexivity.
-  - destruct (cmd =? g_cmd_create) eqn:C0, (cmd =? g_cmd_create_v2) eqn:C1, (cmd =? g_cmd_start) eqn:C2,
-             (cmd =? g_cmd_stop) eqn:C3, (cmd =? g_cmd_delete) eqn:C4, (cmd =? g_cmd_reset) eqn:C5;
-    try (exfalso; unfold g_cmd_create, g_cmd_create_v2, g_cmd_start, g_cmd_stop, g_cmd_delete, g_cmd_reset in *; lia);
-    destruct (status =? 0) eqn:S0, (status =? g_eexist) eqn:S1, (status =? g_enoent) eqn:S2,
-             (err_known status) eqn:S3, (s_toc s) eqn:T;
-    cbn; split; reflexivity.
+    cbv beta iota zeta; rewrite ?added_after_started, ?Ea, ?Es;
+    walk_eq; cbv beta iota zeta; rewrite ?added_after_started, ?Ea, ?Es; cbn; rewrite ?Ea, ?Es; cbn;
+    try (split; reflexivity);
+    exfalso; unfold g_cmd_create, g_cmd_create_v2, g_cmd_start, g_cmd_stop, g_cmd_delete, g_cmd_reset in *; lia.
+  - walk_eq; cbn; try (split; reflexivity);
+    exfalso; unfold g_cmd_create, g_cmd_create_v2, g_cmd_start, g_cmd_stop, g_cmd_delete, g_cmd_reset in *; lia.
 Qed.
 
 (* ------------------------------------------------------------------ packets: the flags follow the acknowledgement *)
